@@ -202,8 +202,9 @@ def eval_traversal(th: TH, tname, form, nbmap, members, settings, ffr_mode, star
         out = th.h.call(fn, th.uni, V[start])
         ed, eu, ev = th.defaults
     else:
-        out = th.h.call(fn, th.uni, V[start], direction_sensitive=th.C[d], unknown_handling=th.C[uh], ff_via=ff_via, ff_result=ffr)
-        ed, eu, ev = th.C[d], th.C[uh], ff_via
+        dval = th.C[d] if isinstance(d, str) else d
+        out = th.h.call(fn, th.uni, V[start], direction_sensitive=dval, unknown_handling=th.C[uh], ff_via=ff_via, ff_result=ffr)
+        ed, eu, ev = dval, th.C[uh], ff_via
     bad_calls = [c for c in th.calls if not (c[1] == ed and c[1] is not None and c[2] == eu and same_filter(th, c[3], ev))]
     listing = names(out.value) if out.kind == "return" and isinstance(out.value, Seq) else None
     return {"out": out, "listing": listing, "bad_calls": bad_calls, "keep": keep, "ff_calls": [a[0].name for a, k in ffr.calls] if ffr is not None else None}
@@ -211,6 +212,8 @@ def eval_traversal(th: TH, tname, form, nbmap, members, settings, ffr_mode, star
 
 # ----------------------------------------------------------------------------- sweep (shared by C06 / C07)
 SETTINGS = [(d, u, v) for d in ("DIR_SENS_FORWARD", "DIR_SENS_ANY", "DIR_SENS_BACKWARD") for u in ("LNK_UNKNOWN_NONNEIGHBOR", "LNK_UNKNOWN_NEIGHBOR", "LNK_UNKNOWN_ERROR") for v in (False, True)]
+# the direction given as a bool (a bool is an int: whatever neighbors() makes of it, the traversal must hand it on as it is)
+SETTINGS += [(True, "LNK_UNKNOWN_NONNEIGHBOR", False), (False, "LNK_UNKNOWN_NEIGHBOR", True), (True, "LNK_UNKNOWN_ERROR", True)]
 
 
 def scope(thorough):
